@@ -132,6 +132,16 @@ RANGE_PROBES = ["let x = %d:%d;" % (MAXI - 1, MAXI), "let x = %d:%d;" % (MAXI, M
                 "let l = %d:%d; let y = l.0 + 1;" % (MAXI - 1, MAXI), "let s = \"@\" %% (%d:%d);" % (MAXI - 2, MAXI)]
 
 
+# A function cannot name itself, but it can be handed itself: evaluation then nests without end.  Eval.tla leaves these
+# calls undescribed (Call: HigherOrder/HandsOn), so no generator produces them; they are probed as given texts.
+SELF_APPLICATION_PROBES = [
+    "let w = func (a) => a(a);\nlet d = w(w);\n",
+    "let w = func (a, n) => a(a, n + 1);\nlet d = w(w, 0);\n",
+    "let t = {f = func (s) => s.f(s)};\nlet d = t.f(t);\n",
+    "let w = func (a) => a(a);\nlet l = map(w, [w]);\n",
+]
+
+
 def nested_item(depth):
     return '"x"' if depth == 0 else '{label = "n", subitems = [%s, "x"]}' % nested_item(depth - 1)
 
@@ -146,6 +156,14 @@ def probes_leg(hp, rep, stats):
             stats["probes"] = stats.get("probes", 0) + 1
             if x["status"] == "violation":
                 rep.disagree({"leg": "probe", "text": t, "detail": x.get("detail")}, key=x.get("key"))
+        for t in SELF_APPLICATION_PROBES:
+            x = pipeline(h, t)
+            stats["probes"] = stats.get("probes", 0) + 1
+            if x["status"] == "violation":
+                key = x.get("key")
+                if key.startswith("crash:") and key != "crash:timeout":
+                    key = "abort:function-handed-itself-recurses-until-the-stack-is-exhausted"
+                rep.disagree({"leg": "probe", "text": t, "detail": x.get("detail")}, key=key)
         for depth in (2, 3, 5):
             t = ('constraint item = "" | {label = "", subitems = [item]};\nlet v :: item = %s;\n' % nested_item(depth))
             t0 = time.time()
